@@ -37,25 +37,51 @@ def _driver_calls_setparam(f):
     return res
 
 
-def _refusal(ctx, f, cfg, target_ids, pred, excname, label, what):
-    """an `if <pred(test)>: raise <excname>` that dominates the target nodes"""
+def _polarity(test):
+    """(core expression source, refusing side) of a refusal test: leading `not`s are stripped, `X is not None` is read as the
+    negation of `X is None`"""
+    neg = False
+    t = test
+    while isinstance(t, ast.UnaryOp) and isinstance(t.op, ast.Not):
+        neg = not neg
+        t = t.operand
+    s = src(t)
+    if isinstance(t, ast.Compare) and len(t.ops) == 1 and isinstance(t.ops[0], ast.IsNot) and isinstance(t.comparators[0], ast.Constant) \
+            and t.comparators[0].value is None:
+        s = f'{src(t.left)} is None'
+        neg = not neg
+    return s, neg
+
+
+def _refusal(ctx, f, cfg, target_ids, pred, excname, label, what, refuse_when=True):
+    """a test of the refusing condition (either polarity) whose refusing side always raises <excname> and which lies on every
+    path to the target nodes.  pred(core) recognises the condition in its canonical form (`X is None`, `X.readonly`);
+    refuse_when=False means the request is refused when the canonical condition is FALSE (`X.constant is None` -> go on)"""
     found = None
     for n in body_walk(f.node):
-        if isinstance(n, ast.If) and pred(src(n.test)) and n.body and isinstance(n.body[0], ast.Raise) and n.body[0].exc is not None:
-            e = n.body[0].exc
-            e = e.func if isinstance(e, ast.Call) else e
-            if dotted(e) == excname:
-                found = n
-                break
+        if isinstance(n, ast.If):
+            core, neg = _polarity(n.test)
+            if pred(core):
+                names = {dotted(x.exc.func if isinstance(x.exc, ast.Call) else x.exc) for st in n.body + n.orelse for x in walk_local(st)
+                         if isinstance(x, ast.Raise) and x.exc is not None}
+                if excname in names:
+                    found = (n, neg)
+                    break
     construct = f'{f.qualname}:{label}'
     if found is None:
         ctx.bad(construct, f.node, f'no `if {what}: raise {excname}` found: {label} is missing, the request is not refused '
                 'with the fitting error class', f)
         return None
-    tid = cfg.ids(found.test)
-    ok = all(cfg.dominates(tid, t) for t in target_ids)
-    ctx.check(ok, construct, found, f'`if {src(found.test)}: raise {excname}` dominates the driver call',
-              f'the {label} does not lie on every path to the driver call', f)
+    n, neg = found
+    tid = cfg.ids(n.test)
+    refusing_true = (not neg) if refuse_when else neg       # truth value of the written test on which the request is refused
+    side = 'T' if refusing_true else 'F'
+    ok = all(cfg.dominates(tid, t) for t in target_ids) and all(side_never_completes(cfg, i, side) for i in tid)
+    goes_on = all(set(target_ids) & (cfg.reach([i], labels={'F' if side == 'T' else 'T'}, avoid=[i]) | set()) for i in tid)
+    ctx.check(ok and goes_on, construct, n, f'`if {src(n.test)}`: the refusing side always raises, the driver call lies on the other side',
+              f'`if {src(n.test)}`: ' + ('the test does not lie on every path to the driver call' if not all(cfg.dominates(tid, t) for t in target_ids) else
+                                         f'the side on which `{what}` holds does not always raise (or the driver call is on that side): the request is '
+                                         f'carried out although it has to be refused with {excname}, and refused when it is legitimate'), f)
     return tid
 
 
@@ -85,7 +111,7 @@ def gates_in_order(ctx):
             ctx.check(nm in fsrc, f'{f.qualname}:driver addressed by looked-up name', c, f'write_ + {nm}',
                       f'the driver method name is not built from the looked-up attribute name `{nm}`', f)
     chain.append(_refusal(ctx, f, cfg, drv_ids, lambda s: s.endswith(' is None') and 'module' not in s, 'NoSuchParameterError', 'parameter-exists refusal', '<pobj> is None'))
-    chain.append(_refusal(ctx, f, cfg, drv_ids, lambda s: '.constant is not None' in s, 'ReadOnlyError', 'constant refusal', '<pobj>.constant is not None'))
+    chain.append(_refusal(ctx, f, cfg, drv_ids, lambda s: s.endswith('.constant is None'), 'ReadOnlyError', 'constant refusal', '<pobj>.constant is not None', refuse_when=False))
     chain.append(_refusal(ctx, f, cfg, drv_ids, lambda s: s.endswith('.readonly'), 'ReadOnlyError', 'readonly refusal', '<pobj>.readonly'))
     imp = [i for c in func_calls(f.node, attr='import_value') for i in cfg.node_of(c)]
     val = [i for c in func_calls(f.node, attr='validate') for i in cfg.node_of(c)]
@@ -355,3 +381,47 @@ def nan_payload_is_refused(ctx):
     from sa.rules import c01
     c01.range_test_is_nan_safe(ctx)
     c01.nan_is_never_turned_into_a_number(ctx)
+
+
+@rule('C04.R2b', min_instances=3)
+def command_argument_presence_is_enforced(ctx):
+    """Command.do: a command with an argument type refuses a request without data, a command without one refuses a request
+    with data (WrongTypeError), and the function is called with arguments exactly on the has-argument side - decided with
+    the polarity of every test (a negated test would refuse every legitimate request and run the others)"""
+    m = ctx.m
+    f = m.method(roles.COMMAND, 'do', inherited=False)
+    ctx.analysed(f)
+    cfg = CFG(f.node, m, f.module)
+    p = f.node.args.args[2].arg if len(f.node.args.args) > 2 else 'argument'
+    has = [t for t in cfg.nodes if t.kind == 'test' and _polarity(t.ast)[0] == 'self.argument']
+    if not has:
+        raise AnchorMissing('test of self.argument not found in Command.do')
+    t = has[0]
+    neg = _polarity(t.ast)[1]
+    with_side = cfg.reach([t.id], labels={'F' if neg else 'T'}, avoid=[t.id])
+    without_side = cfg.reach([t.id], labels={'T' if neg else 'F'}, avoid=[t.id])
+    calls = [c for c in calls_in(f.node) if isinstance(c.func, ast.Name) and c.func.id == 'func']
+    for c in calls:
+        ids = set(cfg.node_of(c))
+        takes = bool(c.args or c.keywords)
+        right, wrong = (with_side, without_side) if takes else (without_side, with_side)
+        ctx.check(ids <= right and not (ids & wrong - right), f'{f.qualname}:`{src(c)}` on the right side of the argument test', c,
+                  'called with arguments iff the command has an argument type',
+                  f'`{src(c)}` is reached on the side where the command has {"no " if takes else "an "}argument type', f)
+    n = 0
+    for u in cfg.nodes:
+        if u.kind != 'test':
+            continue
+        core, uneg = _polarity(u.ast)
+        if core != f'{p} is None':
+            continue
+        n += 1
+        in_with = u.id in with_side and u.id not in without_side
+        # refuse when (has argument type and argument is None) or (no argument type and argument is not None)
+        refuse_true = (not uneg) if in_with else uneg
+        ctx.check(side_never_completes(cfg, u.id, 'T' if refuse_true else 'F'), f'{f.qualname}:{"missing" if in_with else "superfluous"} argument is refused', u.ast,
+                  f'`{src(u.ast)}`: the refusing side raises',
+                  f'`{src(u.ast)}`: a request {"without data for a command that needs an argument" if in_with else "with data for a command without argument"} '
+                  'is not refused (and the legitimate form is)', f)
+    if n < 2:
+        ctx.bad(f'{f.qualname}:argument presence is tested', f.node, f'only {n} tests of `{p} is None`: a missing or a superfluous argument is not refused', f)
